@@ -70,6 +70,34 @@ def a_wrapped_frame_unwraps_to_the_same_frame(tx, rx, plain, octets):
     assert len(ghost("H")) == macs == 1
 
 
+class FreshTagLayer(ips._IPSecureTransportLayer):
+    """A secure transport layer whose message tag is a fresh value on every call, as SecureGroup's is
+    (random.randbytes(2)); sequence information as supplied (SecureGroup: the timer value, C30)."""
+
+    def __init__(self, key, session_id, seq):
+        self._key, self.session_id, self.seq = key, session_id, seq
+
+    def get_sequence_information(self):
+        return self.seq
+
+    def get_message_tag(self):
+        return ghost("message_tags").pop(0)
+
+
+@lemma("C28", params=dict(tx=Obj(FreshTagLayer, _key=B16, session_id=Int(0, 0xFFFF), seq=Bytes(length=6)), plain=PLAIN, octets=Bytes(min_len=6, max_len=12), t1=Bytes(length=2), t2=Bytes(length=2), t3=Bytes(length=2)), stubs=STUBS)
+def the_tag_on_the_wire_is_the_tag_that_was_authenticated(tx, plain, octets, t1, t2, t3):
+    """encrypt_frame on a layer that hands out a different tag per call (secure routing): the tag written
+    into the wrapper is the one the MAC and the counter blocks were computed with - the receiver holding the
+    same key and session id unwraps the identical frame."""
+    assume(t1 != t2 and t2 != t3 and t1 != t3)
+    for t in (t1, t2, t3):
+        ghost("message_tags").append(t)
+    w = _wrap(tx, plain, octets)
+    assert w.body.message_tag == t1 and ghost("message_tags") == [t2, t3]  # asked once
+    rx = FreshTagLayer(tx._key, tx.session_id, tx.seq)
+    assert rx.decrypt_frame(w) is plain
+
+
 @lemma("C28", family=[dict(field=f) for f in FIELDS], params=dict(tx=session(B16, Int(0, 0xFFFF), Int(0, MAX48)), rx=session(None, None), plain=PLAIN, octets=Bytes(min_len=6, max_len=12), key2=B16, sid2=Int(0, 0xFFFF), len2=Int(0, 0xFFFF), seq2=Bytes(length=6), serial2=Bytes(length=6), tag2=Bytes(length=2), data2=Bytes(min_len=0, max_len=12), mac2=B16), stubs=STUBS, max_paths=20000)
 def any_change_to_a_wrapper_is_rejected(field, tx, rx, plain, octets, key2, sid2, len2, seq2, serial2, tag2, data2, mac2):
     """One part of a genuine wrapper is replaced by any other value - the header's total length, the
